@@ -1654,6 +1654,37 @@ func (s *State) runGhost(fr *Frame, anchor string) {
 }
 
 func (s *State) havocAllHeap(reason string) {
+	// A-CAPTURE: the variables a closure under verification has captured live in heap boxes that only the closures
+	// capturing them and the declaring function write; code called from here without a contract is not given their
+	// addresses, so their values survive the havoc
+	type kept struct {
+		l *Loc
+		t Term
+	}
+	var keep []kept
+	top := s.Frame
+	for top != nil && top.Caller != nil {
+		top = top.Caller
+	}
+	if top != nil && len(top.Fn.FreeVars) > 0 {
+		for _, fv := range top.Fn.FreeVars {
+			if l, ok := top.Vals[fv].(*Loc); ok && l.Kind == LocBox && len(l.Path) == 0 {
+				if _, isStruct := s.C.under(l.Ty).(*types.Struct); isStruct {
+					continue
+				}
+				t, _ := s.load(l)
+				keep = append(keep, kept{l, t})
+			}
+		}
+		if len(keep) > 0 {
+			s.C.assume("A-CAPTURE: captured variables of the closure under verification are not written by called code that has no contract")
+		}
+	}
+	defer func() {
+		for _, k := range keep {
+			s.store(k.l, k.t)
+		}
+	}()
 	names := make([]string, 0, len(s.Heap))
 	for k := range s.Heap {
 		if k != "\x00epoch" {
